@@ -155,6 +155,7 @@ def c03(ctx):
     RH.rule_keyid(ctx)
     RH.rule_bm_table(ctx)
     RH.rule_keylen_inv(ctx)
+    RH.rule_keynorm(ctx)          # the buffer that is compared and stored holds the key's own bytes (zero padded), for writer and reader alike
     RA.rule_range(ctx, {"lhh_count"})
     RA.rule_cap(ctx, hh)
     RA.rule_call_range(ctx, only=RA.class_kernels(F, hh))
@@ -493,7 +494,7 @@ def c06(ctx):
       "monotonicity of merged log counters.")
 def c09(ctx):
     F = facts_of(ctx)
-    RA.rule_bind(ctx, COUNTMIN)
+    RA.rule_bind(ctx, COUNTMIN, methods=("merge",))
     RA.rule_ceil(ctx)
     mk = RA.merge_kernels(F, COUNTMIN)
     RA.rule_other_ro(ctx, mk)
